@@ -49,7 +49,7 @@ type injection struct {
 	row   []string
 }
 
-var unparseableNumbers = []string{"abc", "1.5.2", "--"}
+var unparseableNumbers = []string{"abc", "1.5.2", "--", ".", "-.", "+.", "1e", "e5", "1 2", "0x", "-", "+", "\u0661\u0662", "1,5"}
 var outOfRangeInt32 = []string{"2147483648", "4294967298", "-6442450344", "99999999999999999999", "-2147483649"}
 var unparseableTimes = []string{"abc", "12:xx:00", "1:2:3:4", "06:00:00\xa0", "\x8506:00:00", "06\xa0:00:00"}
 var unparseableDates = []string{"abcd", "2024-01-01", "20241301", "2024010", "20230229", "19000229", "21000229", "20240230", "20240431", "20240015", "20240100"}
@@ -430,6 +430,37 @@ func runC09(t *sim.T, tier string) *sim.Violation {
 		if v := check(pl, "multi-insertion "+desc.String()); v != nil {
 			t.Logf("multi-insertion %s", desc.String())
 			return v
+		}
+	}
+	// ---- flood: "any number of such rows" - a hundred or more rejected rows in ONE file (a per-file budget, counter
+	// or buffer that only the first few dozen rejections stay within), spread over the file or in one block
+	if t.Chance(1, 5) {
+		tb := m.Feed.Tables[t.Choose(len(m.Feed.Tables))]
+		cat := c09Catalogue(t, m, tb, t.Choose(64))
+		if len(cat) > 0 {
+			cnt := t.Range(101, 420)
+			oneCause := t.Chance(1, 2)
+			block := t.Chance(1, 3)
+			inj := cat[t.Choose(len(cat))]
+			pos := t.Choose(len(tb.Rows) + 1)
+			var pl []placed
+			for i := 0; i < cnt; i++ {
+				if !oneCause {
+					inj = cat[t.Choose(len(cat))]
+				}
+				if !block {
+					pos = t.Choose(len(tb.Rows) + 1)
+				}
+				pl = append(pl, placed{inj, pos})
+			}
+			t.Probe("flood-of-bad-rows-in-one-file")
+			n++
+			desc := fmt.Sprintf("flood of %d rejected rows in %s (one cause: %v, one block: %v; first: %s %q)", cnt, tb.Name, oneCause, block, pl[0].inj.cause, pl[0].inj.row)
+			t.Cases = append(t.Cases, sim.HashStrings(fmt.Sprint(baseHash), desc))
+			if v := check(pl, desc); v != nil {
+				t.Logf("%s", desc)
+				return v
+			}
 		}
 	}
 	t.Extra["sub_evaluations"] += n
